@@ -102,8 +102,11 @@ def judge(ctx, name, K, KG, active, eigvals, eigvecs, k_req, claim_order=True, t
     thmax = np.max(np.abs(th)) or 1.
     pos = np.sort(-1. / th[th < -1e-12 * thmax])      # positive multipliers ascending
     info = {'npos': int(pos.size), 'lam1': float(pos[0]) if pos.size else None}
-    if claim_order and pos.size and pos[0] > 1. and k_req <= pos.size and npair >= 1:
-        kk = min(k_req, npair)
+    if claim_order and pos.size and pos[0] > 1. and npair >= 1:
+        # the leading values are the smallest positive multipliers, ascending (negative ones may only follow them)
+        kk = min(k_req, npair, pos.size)
+        if k_req > pos.size:
+            ctx.label('more-requested-than-positive')
         got = eigvals[:kk]
         ctx.ok(np.all(np.diff(got) >= -1e-7 * np.abs(got[:-1])) if kk > 1 else True, name + '.ascending',
                'multipliers not ascending: %r' % (got[:6],))
@@ -127,10 +130,10 @@ def check_random(case, ctx):
     ctx.ok((abs(K - Kc)).nnz == 0 and (abs(KG - KGc)).nnz == 0, name + '.input-mutated', 'caller matrices were modified')
     info, pos = judge(ctx, name, K, KG, active, ev, evec, k)
     # both paths agree on the smallest positive multipliers; scaling law
-    if pos.size and pos[0] > 1. and k <= pos.size:
+    if pos.size and pos[0] > 1.:
         with package(name + '.other-path'):
             ev2, evec2 = lb(K, KG, tol=0, sparse_solver=not sparse, silent=True, num_eigvalues=k)
-        kk = min(k, len(ev), len(ev2))
+        kk = min(k, len(ev), len(ev2), pos.size)
         ctx.close('sparse==dense', -1. / np.real(ev[:kk]), -1. / np.real(ev2[:kk]), 1e-6, bucket='lb.sparse!=dense')
         s = case['scale']
         if pos[0] / s > 1.:
@@ -301,7 +304,7 @@ def _random_strategy(draw, tier='quick'):
 def _panel_strategy(draw, tier='quick'):
     case = draw(pkg.panel_case(models=('plate', 'cpanel', 'plate_w'), mmax=5, mmin=3, sub_interval=False, max_plies=4,
                                allow_offset=False))
-    v = [-abs(draw(gen.fl(0.1, 1.))), -abs(draw(gen.fl(0., 1.))), draw(gen.fl(-0.5, 0.5))]
+    v = [-abs(draw(gen.fl(0.1, 1.))), draw(st.one_of(gen.fl(-1., 0.), gen.fl(0., 3.))), draw(gen.fl(-0.5, 0.5))]
     case['N'] = v
     case['k'] = draw(st.integers(1, 12))
     case['sparse'] = draw(st.booleans())
